@@ -19,8 +19,30 @@ pub fn hypergeometric_pmf(size: u64, successes: u64, draws: u64, observed: u64) 
     if observed > draws {
         0.0
     } else {
-        binomial(successes, observed) * binomial(size - successes, draws - observed)
-            / binomial(size, draws)
+        let (a, b, c) = (
+            binomial(successes, observed),
+            binomial(size - successes, draws - observed),
+            binomial(size, draws),
+        );
+
+        if (a * b).is_finite() && c.is_finite() {
+            a * b / c
+        } else {
+            // The binomial coefficients overflow beyond about a thousand draws, and their ratio
+            // would be NaN: combine them in log space instead
+            (ln_binomial(successes, observed) + ln_binomial(size - successes, draws - observed)
+                - ln_binomial(size, draws))
+            .exp()
+        }
+    }
+}
+
+/// Returns the natural logarithm of the binomial coefficient.
+fn ln_binomial(n: u64, k: u64) -> f64 {
+    if k > n {
+        f64::NEG_INFINITY
+    } else {
+        ln_factorial(n) - ln_factorial(k) - ln_factorial(n - k)
     }
 }
 
